@@ -28,6 +28,9 @@ pub fn guard<T>(f: impl FnOnce() -> T) -> Result<T, String> {
 
 /// Silence the panic hook (messages are kept in the payload) and send the library's own
 /// stdout/stderr chatter to /dev/null. Returns a writer onto the real stdout.
+/// file descriptor of the real standard output after `isolate_io` (for the watchdog)
+pub static REAL_STDOUT: std::sync::atomic::AtomicI32 = std::sync::atomic::AtomicI32::new(1);
+
 pub fn isolate_io() -> Box<dyn Write + Send> {
     std::panic::set_hook(Box::new(|info| {
         let s = info.to_string();
@@ -37,6 +40,7 @@ pub fn isolate_io() -> Box<dyn Write + Send> {
         let real = libc::dup(1);
         let null = libc::open(b"/dev/null\0".as_ptr() as *const libc::c_char, libc::O_WRONLY);
         if real >= 0 && null >= 0 {
+            REAL_STDOUT.store(real, std::sync::atomic::Ordering::SeqCst);
             libc::dup2(null, 1);
             libc::dup2(null, 2);
             libc::close(null);
